@@ -83,6 +83,9 @@ func crashTrace(en *Env, cfg h.Cfg, ops int, batchHeavy bool, stats map[string]i
 			n = h.BlockSize - 40 + r.Intn(80) // ends near a block boundary
 		default:
 			n = h.BlockSize + 200 + r.Intn(h.BlockSize) // multi-block
+			if r.Intn(3) == 0 {
+				n = 2*h.BlockSize + 300 + r.Intn(3*h.BlockSize) // three to six blocks (an append of more than 64 KiB)
+			}
 		}
 		id, _ := vs.New(n)
 		return id
